@@ -16,6 +16,7 @@ fn family(name: &str) -> Option<fn(&str) -> String> {
         "eval" => fam_engine::eval,
         "refsearch" => fam_ref::refsearch,
         "refsearchhist" => fam_ref::refsearch_hist,
+        "tbmate" => fam_tb::tbmate,
         "pvcheck" => fam_ref::pvcheck,
         "pgn" => fam_pgn::run,
         "lichess" => fam_lichess::run,
